@@ -26,6 +26,7 @@ pub mod completions;
 pub mod cli;
 pub mod equality;
 pub mod schedules;
+pub mod shapes;
 pub mod goforms;
 pub mod scoping;
 pub mod sepcomp;
@@ -72,6 +73,7 @@ pub fn all() -> Vec<Box<dyn Family>> {
         Box::new(derive::Derive),
         Box::new(names::NamesFamily),
         Box::new(names::Encoders),
+        Box::new(shapes::Shapes),
         Box::new(illtyped::IllTyped),
         Box::new(typepos::TypePos),
         Box::new(inference::Inference),
